@@ -570,8 +570,9 @@ def run(ctx: Ctx):
 
 
 META = {
-    "technique": "abstract interpretation with symbolic terms (captured potential closure vs published equation, solver "
-                 "objective/bounds per point, result transforms) + dispatch table",
+    "technique": "abstract interpretation with symbolic terms (captured potential closures vs published / documented equations: "
+                 "HK slit and sphere, Rege-Yang slit and sphere; solver objective/bounds per point, result transforms) + dispatc"
+                 "h table",
     "level_text": "Static: the slit potential closure is extracted by interpreting psd_horvath_kawazoe symbolically and compared "
                   "algebraically with the published Horvath-Kawazoe equation (all parameters symbolic, including unit factors and "
                   "Kirkwood-Mueller constants); both solvers are interpreted on symbolic pressure vectors with the optimiser "
